@@ -255,6 +255,9 @@ class ExecutionState:
         # Operations whose parent has completed
         self._parent_done: set[str] = set()
 
+        # CONTEXT operations completed during this invocation
+        self._completed_contexts: set[str] = set()
+
         # Protects parent_to_children and parent_done
         self._parent_done_lock: Lock = Lock()
         self._replay_status: ReplayStatus = replay_status
@@ -452,6 +455,13 @@ class ExecutionState:
                     self._parent_to_children[operation_update.parent_id].add(
                         operation_update.operation_id
                     )
+                    # An operation first seen after its parent completed (or was orphaned) is an
+                    # orphan as well, even though it was not registered when the parent completed
+                    if (
+                        operation_update.parent_id in self._parent_done
+                        or operation_update.parent_id in self._completed_contexts
+                    ):
+                        self._parent_done.add(operation_update.operation_id)
 
                 # Handle CONTEXT completion - mark descendants while holding lock
                 if (
@@ -460,6 +470,7 @@ class ExecutionState:
                     in {OperationAction.SUCCEED, OperationAction.FAIL}
                 ):
                     self._mark_orphans(operation_update.operation_id)
+                    self._completed_contexts.add(operation_update.operation_id)
 
                 # Check if this operation's parent is done
                 if operation_update.operation_id in self._parent_done:
